@@ -216,6 +216,12 @@ def rewriteAndSetTypeRef {ι μ α γ : Type} [DecidableEq ι] (cmds : α → Li
 def normalizeIPTables {κ ν : Type} [DecidableEq κ] (norm : κ → ν → ν) : Footprint κ ν (κ × ν) :=
   ownKey (fun k v _ => norm k v)
 
+/-- cisco/parse.go `postprocessParsed` (fix 135107b): `for name, l := range lookup["username"] { if
+!ContainsFunc(l, nopassword) { delete(lookup["username"], name) } }` — deletes the own entry of the
+ranged map, decided by the entry's own value. -/
+def dropUnmanagedUsers {κ ν : Type} [DecidableEq κ] (managed : ν → Bool) : Footprint κ (Option ν) (κ × ν) :=
+  ownKey (fun _ v old => if managed v then old else none)
+
 /-- nsx/diff.go `genUniqGroupNames`: `for id := range a { used[id] = true }`. -/
 def copyKeys {κ ν : Type} [DecidableEq κ] : Footprint κ Bool (κ × ν) :=
   ownKey (fun _ _ _ => true)
@@ -395,6 +401,7 @@ def expected : List Expect := [
   ⟨"cisco/parse.go", "postprocessParsed/stripPFSDefault", "lookup[prefix]", 0, "abb0f3481b8c7d0e", "effects", .perObject, "site_rewriteCommands"⟩,
   ⟨"cisco/parse.go", "postprocessParsed/stripMetric", "lookup[prefix]", 0, "27656f5f09f31db5", "effects", .perObject, "site_rewriteCommands"⟩,
   ⟨"cisco/parse.go", "postprocessParsed", "lookup[\"crypto ca certificate map\"]", 0, "e7303b37b46ec64b", "effects", .perObject, "site_rewriteCommands"⟩,
+  ⟨"cisco/parse.go", "postprocessParsed", "lookup[\"username\"]", 0, "7c85c3e0b52cb470", "effects", .ownKey, "site_dropUnmanagedUsers"⟩,
   ⟨"cisco/parse.go", "postprocessParsed", "lookup[\"tunnel-group\"]", 0, "5e788ebeab593e3c", "effects", .perObject, "site_rewriteCommands"⟩,
   ⟨"linux/parse.go", "normalizeIPTables", "pairs", 0, "647b114a2d7c7eaf", "own-key-write", .ownKey, "site_normalizeIPTables"⟩,
   ⟨"nsx/diff.go", "genUniqGroupNames", "a", 0, "b68557b2bac816d8", "own-key-write", .ownKey, "site_copyKeys"⟩,
